@@ -204,14 +204,17 @@ Theorem C03_reused_id_dropped : forall cf st k f e c room it,
   exec cf st (IGetDest k f e c) room = (st, [ICb c (CbFailed reason_duplicate); IDec k; ICb c CbEnd]).
 Proof. exact reuse_dropped. Qed.
 
-(* what the check excludes: a tombstone collection that meets a LIVE item whose timer is active
-   is the Go panic "only stopped or completed timers can be released" (on a timer goroutine) *)
-Theorem C03_collection_of_live_item_panics : forall cf st t it x,
+(* the scheduled tombstone collection (relayItems.deleteTomb, model step LGc -- the code after
+   the fix "the relay's tombstone collection deletes only the tombstone it was scheduled for")
+   that meets a LIVE item leaves the item, its active timer and everything else alone; only the
+   pending collection is consumed.  (Before the fix the collection was Delete-by-id: the release
+   of the live item's active timer was the Go panic "only stopped or completed timers can be
+   released" on a timer goroutine.) *)
+Theorem C03_collection_leaves_live_item : forall cf st t it,
   panicked st = 0 -> mem_key t (gcs st) = true ->
-  lookup key_eqb t (items st) = Some it -> lookup Z.eqb (it_tm it) (timers st) = Some x ->
-  tm_released x = false -> tm_active x = true ->
-  exists st', step cf st (LGc t) = Some st' /\ panicked st' = panic_release_active.
-Proof. exact gc_of_live_item_panics. Qed.
+  lookup key_eqb t (items st) = Some it -> it_tomb it = false ->
+  step cf st (LGc t) = Some (set_gcs st (remove_one t (gcs st))).
+Proof. exact gc_of_live_item_noop. Qed.
 
 (* NO PANIC for id re-use schedules.  [run_reuse] accepts every interleaving of any number of
    connections, calls, frames, timeouts, full send buffers, closes, connection losses AND re-used
@@ -232,27 +235,33 @@ Theorem C03_relay_reuse_no_panic : forall cf ls st, run_reuse cf init ls = Some 
 Proof. exact reuse_no_panic. Qed.
 
 (* ... and in these schedules a pending tombstone collection only ever meets a tombstone or
-   nothing, so the collection that deletes whatever has the id (relayItems.Delete, the code before
-   fix d6df05f, = the model's LGc) and the one that deletes tombstones only (relayItems.deleteTomb,
-   the code after it) do the same *)
+   nothing (there relayItems.deleteTomb and the Delete-by-id it replaced do the same) *)
 Theorem C03_collection_meets_only_tombstones : forall cf ls st t it, run_reuse cf init ls = Some st ->
   In t (gcs st) -> lookup key_eqb t (items st) = Some it -> it_tomb it = true.
 Proof. exact reuse_gc_tombs. Qed.
 
-(* The guard of [run_reuse] is NECESSARY for the code as it was on the pinned tree (the model's LGc
-   step = time.AfterFunc(ttl, Delete(id))): the unrestricted statement "no schedule with re-used
-   ids panics" is REFUTED by [ex_early_delete], a race of two reader goroutines on one call (a
-   finishing frame looked up by one reader while the other fails the call because a send queue
-   is full) after which finishRelayItem deletes a tombstone whose collection is still pending; the
-   id is re-used, admitted (no item), and the stale collection deletes the live item: panic "only
-   stopped or completed timers can be released".  REPRODUCED on the implementation by a forced
-   schedule (engine peerinput, case race0, verdict [c03:tombstone-collection-deletes-live-item])
-   and repaired by fix d6df05f (the collection leaves a non-tombstone alone); with the fix the
-   witness below is a schedule of the MODEL only: the model's LGc is left as it is because by
-   C03_collection_meets_only_tombstones the two collections differ in no schedule of the
-   theorems of C03 / C09 / C10. *)
+(* The schedule that REFUTED "no schedule with re-used ids panics" on the pinned tree
+   ([ex_early_delete]: a race of two reader goroutines on one call after which finishRelayItem
+   deletes a tombstone whose collection is still pending; the id is re-used and admitted; the
+   stale collection fires -- reproduced on the implementation by engine peerinput, case race0,
+   verdict [c03:tombstone-collection-deletes-live-item], repaired by the fix) is harmless for
+   the code as it is: the stale collection leaves the live item and its armed timer alone. *)
+Theorem C03_stale_collection_harmless :
+  exists st it x, run ex_cf init ex_early_delete = Some st /\ panicked st = 0 /\ gcs st = [(1, 1, 1)] /\
+    lookup key_eqb (0, 0, 7) (items st) = Some it /\ it_tomb it = false /\
+    lookup Z.eqb (it_tm it) (timers st) = Some x /\ tm_armed x = true.
+Proof. exact stale_collection_harmless. Qed.
+
+(* The guard of [run_reuse] is STILL NECESSARY: the unrestricted statement "no schedule with
+   re-used ids panics" is REFUTED for the code as it is by [ex_stale_finish]: the reader of the
+   destination connection has looked the originating item up for the final call res (timer
+   stopped, copy held: relay.Receive.afterGet); the caller cancels the call (cancel relayed, both
+   items deleted, End) and re-uses the id at once: no item, admitted, a live item with an armed
+   timer under the same key; the first reader goes on and finishRelayItem deletes the LIVE item of
+   the new call: release of an active timer, panic "only stopped or completed timers can be
+   released".  The re-using call req met no item, so the schedule is outside [run_reuse]. *)
 Theorem C03_relay_reuse_unguarded_refuted :
-  exists ls st, run ex_cf init ls = Some st /\ panicked st = panic_release_active.
+  exists ls st, run cn_cf init ls = Some st /\ panicked st = panic_release_active.
 Proof. exact reuse_unguarded_refuted. Qed.
 
 (* the fresh-id schedules of C09/C10 are re-use schedules (the guard speaks about re-used ids only) *)
@@ -261,7 +270,8 @@ Proof. exact (fun cf ls st => run_fresh_is_reuse cf ls init st (NoDup_nil _)). Q
 
 Print Assumptions C03_relay_admission_generated.
 Print Assumptions C03_duplicate_check_covers_tombstones.
-Print Assumptions C03_collection_of_live_item_panics.
+Print Assumptions C03_collection_leaves_live_item.
+Print Assumptions C03_stale_collection_harmless.
 Print Assumptions C03_relay_reuse_simulated.
 Print Assumptions C03_relay_reuse_no_panic.
 Print Assumptions C03_fresh_schedules_included.
